@@ -27,6 +27,8 @@ type c09Opts struct {
 	Sec     uint64 `json:"sec,omitempty"`     // MaxAllowedSectionSize (0 = library default, 8 MiB)
 	ZeroEOF bool   `json:"zeof,omitempty"`    // ZeroLengthSectionAsEOF
 	RootMax uint64 `json:"rootmax,omitempty"` // root module util.MaxAllowedSectionSize (0 = default, 32 MiB)
+	HdrZero bool   `json:"hdrzero,omitempty"` // MaxAllowedHeaderSize(0): every header is over the maximum
+	SecZero bool   `json:"seczero,omitempty"` // MaxAllowedSectionSize(0): every non-empty section is over the maximum
 }
 
 func (o c09Opts) String() string {
@@ -824,23 +826,38 @@ func c09LimitBatch(r *rand.Rand, mh, ms int, dflt bool) *c09Batch {
 		what      string // header | section
 		expect    string // accept | over | giant
 		rootOnly  bool   // row built for the root module's own limit
+		noRoot    bool   // row about an option the root module does not have
 	}
 	var rows []row
 	mk := func(name, what, expect string, a c09LimitArchive, o c09Opts) {
-		rows = append(rows, row{name, "v1", addInput("limit:"+name+":v1", a.v1, a.keys, o), what, expect, false})
-		rows = append(rows, row{name, "v2", addInput("limit:"+name+":v2", a.v2, a.keys, o), what, expect, false})
+		rows = append(rows, row{name, "v1", addInput("limit:"+name+":v1", a.v1, a.keys, o), what, expect, false, false})
+		rows = append(rows, row{name, "v2", addInput("limit:"+name+":v2", a.v2, a.keys, o), what, expect, false, false})
 	}
 	mk("header-at-max", "header", "accept", c09LimitArchiveOf(r, mh, 0), ho)
 	mk("header-over-max", "header", "over", c09LimitArchiveOf(r, mh+1, 0), ho)
 	mk("section-at-max", "section", "accept", c09LimitArchiveOf(r, 0, ms), so)
 	mk("section-over-max", "section", "over", c09LimitArchiveOf(r, 0, ms+1), so)
+	// a limit of zero is a limit (not "unset"): whatever is there is over it
+	if !dflt {
+		z := c09LimitArchiveOf(r, 0, 0)
+		for _, zr := range []struct {
+			name, what string
+			o          c09Opts
+		}{
+			{"header-over-max(limit 0)", "header", c09Opts{HdrZero: true, Sec: c09SmallSec}},
+			{"section-over-max(limit 0)", "section", c09Opts{Hdr: c09SmallHdr, SecZero: true}},
+		} {
+			rows = append(rows, row{zr.name, "v1", addInput("limit:"+zr.name+":v1", z.v1, z.keys, zr.o), zr.what, "over", false, true})
+			rows = append(rows, row{zr.name, "v2", addInput("limit:"+zr.name+":v2", z.v2, z.keys, zr.o), zr.what, "over", false, true})
+		}
+	}
 	// The root module has one limit for header and sections. With the library defaults it is
 	// 32 MiB where v2 allows 8 MiB sections, so the root rows need archives of their own.
 	if dflt {
 		a := c09LimitArchiveOf(r, 0, c09DefaultRoot)
-		rows = append(rows, row{"section-at-max", "v1", addInput("limit:section-at-max:v1", a.v1, a.keys, so), "section", "accept", true})
+		rows = append(rows, row{"section-at-max", "v1", addInput("limit:section-at-max:v1", a.v1, a.keys, so), "section", "accept", true, false})
 		a = c09LimitArchiveOf(r, 0, c09DefaultRoot+1)
-		rows = append(rows, row{"section-over-max", "v1", addInput("limit:section-over-max:v1", a.v1, a.keys, so), "section", "over", true})
+		rows = append(rows, row{"section-over-max", "v1", addInput("limit:section-over-max:v1", a.v1, a.keys, so), "section", "over", true, false})
 	}
 
 	// giant length prefixes without a body
@@ -873,8 +890,8 @@ func c09LimitBatch(r *rand.Rand, mh, ms int, dflt bool) *c09Batch {
 			}
 			body = append(body, refcar.PutUvarint(nil, l)...)
 			name := "giant-" + what + "-prefix"
-			rows = append(rows, row{name, "v1", addInput("limit:"+name+":v1", body, small.keys, o), what, "giant", false})
-			rows = append(rows, row{name, "v2", addInput("limit:"+name+":v2", v2of(body, l), small.keys, o), what, "giant", false})
+			rows = append(rows, row{name, "v1", addInput("limit:"+name+":v1", body, small.keys, o), what, "giant", false, false})
+			rows = append(rows, row{name, "v2", addInput("limit:"+name+":v2", v2of(body, l), small.keys, o), what, "giant", false, false})
 		}
 	}
 
@@ -882,6 +899,9 @@ func c09LimitBatch(r *rand.Rand, mh, ms int, dflt bool) *c09Batch {
 		for _, rw := range rows {
 			// with the defaults the root module takes its own section rows and not the 8 MiB ones
 			if dflt && rw.what == "section" && rw.expect != "giant" && rw.rootOnly != ep.root {
+				continue
+			}
+			if rw.noRoot && ep.root {
 				continue
 			}
 			var parses, accepts bool
